@@ -43,7 +43,38 @@ T = {
           "TLC trace validation against Hsm.tla"),
 }
 
-NOT_YET = "no check built yet in this round (work in progress; see DESIGN.md 4 for the planned model)"
+B_NOTE = ("Trusted: TLC, the deterministic scheduler and primitive shims of harness B (a single C-level container operation is atomic; "
+          "pre-emption only between such operations), CPython. The TLC result on the fine-grained model is claimed for the code only while "
+          "TLC-generated behaviours replay step for step.")
+T.update({
+  "C04": ("model_checking", "4 C04",
+          "LockingDeque.tla (one label per primitive operation) is model-checked exhaustively for the repaired protocol (no lost wake-up, at most once, "
+          "order/nothing lost outside the overflow regime); its behaviours are imposed step by step on the real threads; and thousands of executions of the "
+          "real ActiveObject under random, PCT and counterexample-guided schedules are validated by TLC against AO.tla.",
+          "TLC model checking of LockingDeque.tla + schedule replay into the real code + TLC trace validation (AOTrace.tla)"),
+  "C05": ("model_checking", "4 C05",
+          "TLC checks PostersFinish and Quiescence of LockingDeque.tla under weak fairness; real executions with a fair (round-robin) suffix must reach "
+          "quiescence with every post returned, validated by TLC (NoProgress / PostBlocked clauses).",
+          "TLC liveness checking under fairness + fair-suffix schedules of the real code validated by TLC"),
+  "C16": ("model_checking", "4 C16",
+          "AOSeq.tla is model-checked over all short operation sequences (bounded, token per event, new event kept); recorded operation sequences on the "
+          "real LockingDeque and on queued charts with capacity 1-3 are validated by TLC.",
+          "TLC model checking of AOSeq.tla + TLC trace validation (AOSeqTrace.tla, HsmTrace.tla)"),
+  "C17": ("model_checking", "4 C17",
+          "The same chart table is built by hand-written text, template+registry, Factory and exec'd to_code text; every build's recorded execution is "
+          "validated by TLC against the one Hsm.tla behaviour (callback calls, entries/exits seen through the spy, queues, trace, final state).",
+          "TLC trace validation of four builds against Hsm.tla"),
+  "C18": ("model_checking", "4 C18",
+          "The same chart and events run under 10 configurations (host x decorator x live flags x clock); each recorded execution is validated by TLC "
+          "against the same Hsm.tla behaviour, and the independent action logs are compared across configurations.",
+          "TLC trace validation per configuration + cross-configuration comparison"),
+  "C24": ("model_checking", "4 C24",
+          "Charts with one malformed initial transition or None-returning handler: Hsm.tla prescribes HsmTopologyException at the op that reaches the "
+          "fault; recorded executions (with a call-count watchdog turning a hang into an outcome) are validated by TLC.",
+          "TLC trace validation with fault injection"),
+})
+
+NOT_YET ="no check built yet in this round (work in progress; see DESIGN.md 4 for the planned model)"
 
 
 def main():
@@ -84,7 +115,7 @@ def main():
   print("MANIFEST: %d checks, %d not_applicable" % (len(checks), len(na)))
 
 
-NOTES = {}
+NOTES = {p: B_NOTE for p in ("C04", "C05", "C16")}
 NA = {}
 
 if __name__ == "__main__":
